@@ -199,6 +199,10 @@ path_enum!(IterPath {
     BorrowSlices,
     BorrowSlicesMut,
     AllSlices,
+    ArchIterSkip,
+    ArchIterStepBy,
+    ArchIterMutNth,
+    ArchIterCount,
 });
 
 impl IterPath {
@@ -218,6 +222,20 @@ impl IterPath {
     }
     pub fn hands_direct(&self) -> bool {
         self.supports_break()
+    }
+    /// Paths that consume `Archetype::iter(_mut)` through an iterator adaptor with parameter k.
+    pub fn adaptor(&self) -> bool {
+        matches!(self, IterPath::ArchIterSkip | IterPath::ArchIterStepBy | IterPath::ArchIterMutNth | IterPath::ArchIterCount)
+    }
+    /// Number of items the path must yield for `n` live entities and adaptor parameter `k`.
+    pub fn expected_items(&self, n: usize, k: usize) -> usize {
+        match self {
+            IterPath::ArchIterSkip => n.saturating_sub(k),
+            IterPath::ArchIterStepBy => (n + k.max(1) - 1) / k.max(1),
+            // nth(k) then the rest
+            IterPath::ArchIterMutNth => n.saturating_sub(k),
+            _ => n,
+        }
     }
 }
 
@@ -291,6 +309,8 @@ pub struct ArchInfo {
     pub col_names: Vec<&'static str>,
     /// number of zero-sized tracked columns (Ztrk)
     pub zst_tracked: usize,
+    /// number of `Tok` columns (no drop glue, observable Clone)
+    pub tok_cols: usize,
 }
 
 impl ArchInfo {
